@@ -49,6 +49,14 @@ CHECKS = {
    "event-log monitor: writer/consumer histories checked offline (Size == sum n, monotone prefix sums, final total, closed channel); blocked-writer decided structurally from goroutine dumps; race detector",
    "2 300 (quick) / 240 000 (thorough) seeded scenarios over 6 wrapped-writer behaviours x StringWriter or not x op lists of Write/WriteString up to 50 ops x 5 consumer behaviours, at GOMAXPROCS 1/2/4/16 and under -race; evidence counts received vs skipped sends and intermediate values per consumer kind.",
    "Size() from another goroutine while writing is unsynchronised in glb and not promised; not driven.", "§3 C19"),
+ "C15": ("relay", "exploration",
+   "offline checker over recorded events: log records (one Write = one record, parsed per handler kind) joined by request id with the client's wire log; real http.Server on loopback and ServeHTTP with a recorder; race detector",
+   "The full product of handler behaviours (12 status codes x body or not x panic before / after header / after body / none x 9 panic value kinds, matched and unmatched) is sent sequentially over real HTTP and through a recorder for all three handlers at thresholds Info, Error, Fatal; seeded batches with 8 and 64 requests in flight at GOMAXPROCS 2/4/16, also under -race. Decided: one REQ_BEG and one REQ_END per request with its method/URI/ip/id, END code == status received, 500 iff panic before any write, one Error record with the rendered panic value iff the handler panicked, nothing escapes Relay.",
+   "http.ErrAbortHandler, 1xx, hijacking and HTTP/2 are not exercised; request URIs are space-free tokens so that the key-less nano format can be split.", "§3 C15"),
+ "C20": ("daemonlaunch", "exploration",
+   "process-level monitor: marker files written before Done(), /proc parentage and liveness after the caller exited; schedules forced with the verif pause hook in the launcher",
+   "A harness binary plays caller, launcher (glb code) and daemon. Launch's return is judged by file existence at that instant (marker and pre-Done file carrying the returned pid), the daemon must be alive, re-parented and answer a ping after the caller exited, the launcher must be gone. Schedules: natural with Done() after 0/5/200 ms, forced 'Done() precedes the launcher's wait' via GLB_VERIF_PAUSE, 2 and 8 concurrent Launch calls, mixed. 120 (quick) / 3 600 (thorough) scenarios.",
+   "Needs fork/exec, signals and /proc; only these schedule classes are forced, other timings are sampled by repetition.", "§3 C20"),
 }
 BUILT = set(CHECKS)
 
